@@ -51,7 +51,7 @@ func c10Token(tok byte, N int) {
 func HarnessC10_TokDone()         { c10Token(byte(TDS_DONE), c10N(10, 12)) }
 func HarnessC10_TokDoneProc()     { c10Token(byte(TDS_DONEPROC), c10N(10, 12)) }
 func HarnessC10_TokDoneInProc()   { c10Token(byte(TDS_DONEINPROC), c10N(10, 12)) }
-func HarnessC10_TokEED()          { c10Token(byte(TDS_EED), c10N(18, 20)) }
+func HarnessC10_TokEED()          { c10Token(byte(TDS_EED), c10N(14, 20)) }
 func HarnessC10_TokError()        { c10Token(byte(TDS_ERROR), c10N(12, 14)) }
 func HarnessC10_TokLoginAck()     { c10Token(byte(TDS_LOGINACK), c10N(12, 14)) }
 func HarnessC10_TokMsg()          { c10Token(byte(TDS_MSG), c10N(6, 8)) }
